@@ -528,27 +528,17 @@ func c20FastForwardHost(k *eng.Check, cls []*dsClosure) {
 		ex, ok := v.(*ssa.Extract)
 		return ok && ex.Index == 1 && ex.Tuple == ssa.Value(fca[0])
 	}, true)
+	// "head != ancestor" may be written inline or through a two-parameter helper whose body is `return a != b`
+	// (mergeNeeded today); the helper is recognised by its body, not its name
 	noMerge := dsBoolEdges(fn, func(v ssa.Value) bool {
-		c := dsCallTo(v, "store/datas.mergeNeeded")
-		return c != nil && len(c.Call.Args) == 2 && isHead(c.Call.Args[0]) && isAncestor(c.Call.Args[1])
+		c, ok := v.(*ssa.Call)
+		return ok && C20IsNeqHelper(c.Call.StaticCallee()) && len(c.Call.Args) == 2 &&
+			((isHead(c.Call.Args[0]) && isAncestor(c.Call.Args[1])) || (isHead(c.Call.Args[1]) && isAncestor(c.Call.Args[0])))
 	}, false)
+	noMerge.Union(dsCmpEdges(fn, isHead, isAncestor, true))
 	k.OnlyAfter("ff-ancestry", fn, "update is entered only after FindCommonAncestor succeeded (or the dataset has no head)", upd, 1, eng.UnionOf(eng.OkCut(fca[0]), noHead))
 	k.OnlyAfter("ff-ancestry", fn, "update is entered only when a common ancestor was found (or the dataset has no head)", upd, 1, eng.UnionOf(found, noHead))
 	k.OnlyAfter("ff-ancestry", fn, "update is entered only when mergeNeeded(head, ancestor) is false (or the dataset has no head)", upd, 1, eng.UnionOf(noMerge, noHead))
-	if mn := k.Fn("store/datas.mergeNeeded"); mn != nil && len(mn.Params) == 2 {
-		ok := false
-		for _, b := range mn.Blocks {
-			for _, in := range b.Instrs {
-				if ret, isRet := in.(*ssa.Return); isRet && len(ret.Results) == 1 {
-					if bo, isBo := ret.Results[0].(*ssa.BinOp); isBo && bo.Op == token.NEQ &&
-						((bo.X == ssa.Value(mn.Params[0]) && bo.Y == ssa.Value(mn.Params[1])) || (bo.X == ssa.Value(mn.Params[1]) && bo.Y == ssa.Value(mn.Params[0]))) {
-						ok = true
-					}
-				}
-			}
-		}
-		k.Require("ff-ancestry", eng.Name(mn), "mergeNeeded(a, b) is a != b", ok, k.C.Pos(mn.Pos()), "mergeNeeded no longer returns the inequality of its two arguments")
-	}
 	// the head whose ancestry was tested is the expected address of the closure's comparison, and the
 	// compared key is the ID of the same dataset
 	n := 0
@@ -722,4 +712,30 @@ func c20UpdateTokenFlow(k *eng.Check) {
 	if nC < 1 || nT < 1 {
 		k.Unknown("root-commit-owner", "store/datas", "root commit call sites", fmt.Sprintf("found %d Commit / %d tryCommitChunks sites, confirmed floor 1/1", nC, nT))
 	}
+}
+
+// C20IsNeqHelper: f is a two-parameter function whose every return is `p0 != p1` (in either order).
+func C20IsNeqHelper(f *ssa.Function) bool {
+	if f == nil || len(f.Params) != 2 || len(f.Blocks) == 0 {
+		return false
+	}
+	n := 0
+	for _, b := range f.Blocks {
+		for _, in := range b.Instrs {
+			ret, isRet := in.(*ssa.Return)
+			if !isRet {
+				continue
+			}
+			if len(ret.Results) != 1 {
+				return false
+			}
+			bo, isBo := ret.Results[0].(*ssa.BinOp)
+			if !isBo || bo.Op != token.NEQ ||
+				!((bo.X == ssa.Value(f.Params[0]) && bo.Y == ssa.Value(f.Params[1])) || (bo.X == ssa.Value(f.Params[1]) && bo.Y == ssa.Value(f.Params[0]))) {
+				return false
+			}
+			n++
+		}
+	}
+	return n > 0
 }
